@@ -10,6 +10,8 @@ import RosedVerif.Spec.WrapLemmas
 import RosedVerif.Model.JustifyLemmas
 import RosedVerif.Model.BridgeWrap
 import RosedVerif.Model.BridgeOps
+import RosedVerif.Model.BridgeEditorOps
+import RosedVerif.Model.BridgeEditorParas
 namespace RosedVerif.Props
 open RosedVerif RosedVerif.Spec
 variable {α : Type} (tk : Toks α)
@@ -76,5 +78,20 @@ theorem C07_collapseSpaceOpts_code_points {V : List (List Int)} (hV : VocabStabl
     (hS : BridgeOps.GoodSep V (o'.withDefaults cxB).lineSep) :
     Editor.collapseSpaceOpts cxA ed.flat o'.flat = (Editor.collapseSpaceOpts cxB ed o').map Editor.flat :=
   BridgeOps.collapseSpaceOpts_bridge_good hV hsp hspTail ed ht o' hS
+
+open RosedVerif.BridgeOps RosedVerif.BridgeEditorOps RosedVerif.BridgeEditorParas RosedVerif.OpsStructure
+
+/-- the PUBLIC operation IndentOpts on code points, any editor, any level: flattening of the cluster run (indent tokens non-empty: necessary, `BridgeEditorOps.indentOpts_needs_ne`) -/
+theorem C07_indentOpts_code_points {V : List (List Int)} (hV : VocabStable V = true)
+    (ed : Editor (List Int))
+    (ht : ∀ t ∈ ed.text, t ∈ V)
+    (level : Int)
+    (o : Options (List Int))
+    (hpp : o.preservePara = false)
+    (hS : GoodSep V (o.withDefaults cxB).lineSep)
+    (hi : ∀ t ∈ o.indentStr, t ≠ []) :
+    Editor.indentOpts cxA ed.flat level o.flat =
+      (Editor.indentOpts cxB ed level o).map Editor.flat :=
+  indentOpts_bridge hV ed ht level o hpp hS hi
 
 end RosedVerif.Props
